@@ -14,9 +14,12 @@ Open Scope Z_scope.
    delegation to Remove / CompareAndRemove, flattened by the translator), so a
    method call is one atomic step and notifications are sent inside it. *)
 Theorem C14_ops_atomic :
-  map fst locks_TransientData =
-    ["AddListener"; "RemoveListener"; "Set"; "SetTTL"; "CompareAndSet"; "CompareAndSetTTL"; "Remove"; "CompareAndRemove"; "GetData"]%string /\
-  forallb (fun e => sections_only (snd e)) locks_TransientData = true.
+  locks_TransientData =
+    [("AddListener", [Lock; Unlock]); ("RemoveListener", [Lock; Unlock]);
+     ("Set", [Lock; Unlock; Lock; Unlock]); ("SetTTL", [Lock; Unlock; Lock; Unlock]);
+     ("CompareAndSet", [Lock; Unlock; Lock; Unlock]); ("CompareAndSetTTL", [Lock; Unlock; Lock; Unlock]);
+     ("Remove", [Lock; Unlock]); ("CompareAndRemove", [Lock; Unlock]); ("GetData", [Lock; Unlock])]%string /\
+  forallb (fun e => sections_only (snd e) && negb (Nat.eqb (List.length (snd e)) 0)) locks_TransientData = true.
 Proof. split; vm_compute; reflexivity. Qed.
 
 (* Value equality of the model (checked against reflect.DeepEqual every run) is equality. *)
@@ -127,12 +130,12 @@ Proof. exact refuted_refines. Qed.
 (* the hypotheses of C14_ttl_honoured are met by a history with two listeners,
    another key and a late callback in between; the conclusion is what the theorem says *)
 Example C14_ttl_honoured_nonvacuous :
-  let pre := [OAddL 1; OSet 1 (Some (JStr 7)) (30 * ms); OSet 1 (Some (JStr 7)) (80 * ms)] in
-  let o := OCas 1 (Some (JStr 7)) (Some (JStr 8)) (50 * ms) in
-  let mid := [OSet 2 (Some (JNum 1000)) (10 * ms); OAdvance (20 * ms); OFireLate 0; OAddL 2; OAdvance (-5)] in
-  0 < 50 * ms /\ stores (run true pre) o 1 (JStr 8) (50 * ms) /\
-  forallb (fun x => negb (names 1 x)) mid = true /\ elapsed mid < 50 * ms /\ 50 * ms <= elapsed mid + 40 * ms /\
-  snd (snd (step true (run_from true (fst (step true (run true pre) o)) mid) (OAdvance (40 * ms)))) =
+  let pre := [OAddL 1; OSet 1 (Some (JStr 7)) (30 * msec); OSet 1 (Some (JStr 7)) (80 * msec)] in
+  let o := OCas 1 (Some (JStr 7)) (Some (JStr 8)) (50 * msec) in
+  let mid := [OSet 2 (Some (JNum 1000)) (10 * msec); OAdvance (20 * msec); OFireLate 0; OAddL 2; OAdvance (-5)] in
+  0 < 50 * msec /\ stores (run true pre) o 1 (JStr 8) (50 * msec) /\
+  forallb (fun x => negb (names 1 x)) mid = true /\ elapsed mid < 50 * msec /\ 50 * msec <= elapsed mid + 40 * msec /\
+  snd (snd (step true (run_from true (fst (step true (run true pre) o)) mid) (OAdvance (40 * msec)))) =
     [(1%N, MRemove 1 (JStr 8)); (2%N, MRemove 1 (JStr 8))].
 Proof.
   cbv zeta. split; [reflexivity|]. split; [right; exists (Some (JStr 7)); split; reflexivity|].
@@ -140,12 +143,12 @@ Proof.
   split; [vm_compute; discriminate|vm_compute; reflexivity].
 Qed.
 Example C14_ttl_cleared_nonvacuous :
-  stores (run true [OSet 1 (Some (JStr 7)) (50 * ms)]) (OSet 1 (Some (JStr 7)) 0) 1 (JStr 7) 0 /\
-  dget (data (run true (h_clear ++ [OAdvance (1000 * ms)]))) 1%N = Some (JStr 7).
+  stores (run true [OSet 1 (Some (JStr 7)) (50 * msec)]) (OSet 1 (Some (JStr 7)) 0) 1 (JStr 7) 0 /\
+  dget (data (run true (h_clear ++ [OAdvance (1000 * msec)]))) 1%N = Some (JStr 7).
 Proof. split; [left; reflexivity|vm_compute; reflexivity]. Qed.
 (* a listener's replica on a history with a join after data exists, a set, an expiry and a leave *)
 Example C14_replica_nonvacuous :
-  let ops := [OSet 1 (Some (JStr 7)) (50 * ms); OAddL 3; OSet 2 (Some (JStr 8)) 0; OAdvance (60 * ms)] in
+  let ops := [OSet 1 (Some (JStr 7)) (50 * msec); OAddL 3; OSet 2 (Some (JStr 8)) 0; OAdvance (60 * msec)] in
   replica 3 None (trace_of true ops) = Some [(2%N, JStr 8)] /\
   replica 3 None (trace_of true (ops ++ [ORemoveL 3; OSet 2 (Some (JStr 9)) 0])) = None.
 Proof. split; vm_compute; reflexivity. Qed.
